@@ -4,6 +4,7 @@ import (
 	"fmt"
 	"path/filepath"
 	"sort"
+	"strconv"
 	"strings"
 
 	"verif/engine/sym"
@@ -70,6 +71,9 @@ type fifoMeet struct {
 
 type World struct {
 	fifos map[string]*fifoMeet
+	// barrier commands (vcmd b:K)
+	barrierN    int
+	barrierWait []*G
 	Cwd     string
 	Nodes   map[string]*Node
 	nextIno int
@@ -454,13 +458,24 @@ func (m *Machine) fsWriteFile(pv Value, data Value, origin string) Value {
 	if n := w.node(a); n != nil && n.Kind == KDir {
 		return m.errVal("EISDIR", "open "+p+": is a directory")
 	}
-	c := &Content{Origin: origin, Status: int64(2), Data: data}
-	if n := w.node(a); n != nil && n.Kind == KFile {
-		n.C = c
-		n.MTime = m.now()
-		return Iface{}
+	// A write is not atomic: the file is first created / truncated (empty), then filled. A
+	// kill between the two leaves an empty file behind.
+	nonEmpty := true
+	if sd, ok := data.(string); ok && sd == "" {
+		nonEmpty = false
 	}
-	w.newFile(a, c, m.now())
+	empty := &Content{Origin: origin, Status: int64(1), Data: ""}
+	n := w.node(a)
+	if n != nil && n.Kind == KFile {
+		n.C = empty
+		n.MTime = m.now()
+	} else {
+		n = w.newFile(a, empty, m.now())
+	}
+	if nonEmpty {
+		m.crashPoint("write-data " + p)
+	}
+	n.C = &Content{Origin: origin, Status: int64(2), Data: data}
 	return Iface{}
 }
 
@@ -644,6 +659,22 @@ func (m *Machine) runVcmd(dir, text string, args []string) Value {
 	}
 	for _, a := range args {
 		switch {
+		case strings.HasPrefix(a, "b:"):
+			// barrier: the command waits until K barrier commands have started (the
+			// "rendezvous command" of the work-conservation property)
+			k, _ := strconv.Atoi(a[2:])
+			w.barrierN++
+			w.barrierWait = append(w.barrierWait, m.cur)
+			w.event(m, "cmd-barrier", int64(inv.N), int64(w.barrierN))
+			for w.barrierN < k {
+				m.park("barrier")
+			}
+			for _, g := range w.barrierWait {
+				if g != m.cur {
+					m.makeRunnable(g)
+				}
+			}
+			w.barrierWait = nil
 		case strings.HasPrefix(a, "r:"):
 			p := a[2:]
 			ab := w.absFrom(dir, p)
